@@ -16,7 +16,7 @@
     The tuple labels are then numbered by first occurrence ([intern]; injective on the labels that occur, proved in
     proof/C11_AttrProof.v) and the analysis of model/C11_Model.v runs on the resulting graph.  Definitions only. *)
 From Coq Require Import List NArith ZArith Bool.
-From SK Require Import lib.Tok lib.LGraph model.C11_Model model.C11_Keys.
+From SK Require Import lib.Tok lib.LGraph model.C11_Model model.C11_Keys model.C11_Image.
 Import ListNotations.
 
 Definition attrs := list (N * N).                 (* a Python dict: key code -> value code, unique keys *)
@@ -104,7 +104,9 @@ Definition run_prune_attr (rc : agraph) (raw : list mapping) : tok :=
   let A := rule_auts g in
   L [ run_prune g raw; tbool (wfb g); tbool (dom_ok g raw); tbool (rep_ok g raw);
       (* the symmetries handed to the de-duplicator, as a set of maps (only when the call happens and they are few) *)
-      t_maps (if (1 <? length raw)%nat then (if (length A <=? 60)%nat then A else []) else []) ].
+      t_maps (if (1 <? length raw)%nat then (if (length A <=? 60)%nat then A else []) else []);
+      (* every raw match has the labelled image (model/C11_Image.v) of a kept match *)
+      tbool (images_ok g raw) ].
 
 (** deduplicate_matches_by_automorphisms(ms, graph_automorphisms(P, ignore_node_attrs=skip)): kept indices, group order *)
 Definition run_dedup_skip (skip : list N) (p : agraph) (ms : list mapping) : tok :=
